@@ -30,6 +30,7 @@ CONSTANTS
  Variants <- U_Variants
  CbWeight <- U_CbWeight
  H0 = 2
+ SubsidyInterval = 150
  HardDiff = FALSE
  CommitWeight = 224
 INIT Init
